@@ -230,6 +230,34 @@ package server
 //@   ensures had && seq0 == lspEntry.SequenceNumber && e0.lspdu.LSPID == lspEntry.LSPID ==> !spec_srm(e0, from)
 //@   ensures had && seq0 > lspEntry.SequenceNumber ==> !spec_ssn(e0, from)
 //@   ensures had && seq0 < lspEntry.SequenceNumber ==> spec_ssn(e0, from) && !spec_srm(e0, from)
+//@   logical g packet.LSPID
+//@   old hadg bool = spec_hasLSP(l, g)
+//@   old eg *lsdbEntry = l.lsps[g]
+//@   old dg *packet.LSPDU = l.lsps[g].lspdu
+//@   old seqg uint32 = ite(l.lsps[g] != nil && l.lsps[g].lspdu != nil, l.lsps[g].lspdu.SequenceNumber, 0)
+//@   ensures hadg ==> spec_hasLSP(l, g) && l.lsps[g] == eg
+//@   ensures hadg && eg != nil && dg != nil ==> eg.lspdu == dg && dg.SequenceNumber == seqg
+//@   ensures !hadg && g != lspEntry.LSPID ==> !spec_hasLSP(l, g)
+//@   ensures !hadg && spec_hasLSP(l, g) ==> l.lsps[g] != nil && l.lsps[g].lspdu != nil && l.lsps[g].lspdu.SequenceNumber == 0
+
+// A whole CSNP (both passes): no LSP is removed, no stored copy is swapped or
+// renumbered, and an LSP ID that appears in the database because of the CSNP is
+// a placeholder with sequence number 0 (to be requested), never a usable copy.
+// Stated for an arbitrary LSP ID g as an invariant of both loops.
+//@ contract (*lsdb).processCSNP
+//@   props C32
+//@   nosafety
+//@   requires l != nil && csnp != nil && l.lsps != nil && from != nil && from.cfg != nil
+//@   logical g packet.LSPID
+//@   old hadg bool = spec_hasLSP(l, g)
+//@   old eg *lsdbEntry = l.lsps[g]
+//@   old dg *packet.LSPDU = l.lsps[g].lspdu
+//@   old seqg uint32 = ite(l.lsps[g] != nil && l.lsps[g].lspdu != nil, l.lsps[g].lspdu.SequenceNumber, 0)
+//@   loop 0 invariant (hadg ==> spec_hasLSP(l, g) && l.lsps[g] == eg) && (hadg && eg != nil && dg != nil ==> eg.lspdu == dg && dg.SequenceNumber == seqg) && (!hadg && spec_hasLSP(l, g) ==> l.lsps[g] != nil && l.lsps[g].lspdu != nil && l.lsps[g].lspdu.SequenceNumber == 0)
+//@   loop 1 invariant (hadg ==> spec_hasLSP(l, g) && l.lsps[g] == eg) && (hadg && eg != nil && dg != nil ==> eg.lspdu == dg && dg.SequenceNumber == seqg) && (!hadg && spec_hasLSP(l, g) ==> l.lsps[g] != nil && l.lsps[g].lspdu != nil && l.lsps[g].lspdu.SequenceNumber == 0)
+//@   ensures hadg ==> spec_hasLSP(l, g) && l.lsps[g] == eg
+//@   ensures hadg && eg != nil && dg != nil ==> eg.lspdu == dg && dg.SequenceNumber == seqg
+//@   ensures !hadg && spec_hasLSP(l, g) ==> l.lsps[g] != nil && l.lsps[g].lspdu != nil && l.lsps[g].lspdu.SequenceNumber == 0
 
 // One aging tick (property C32: a copy is kept "until it ages out"): aging never
 // adds an LSP, never swaps a stored entry and never rejuvenates one - the
